@@ -42,7 +42,7 @@ pub struct Stat {
         use_value_delimiter = true,
         value_name = "INT,..."
     )]
-    pub precision: Vec<usize>,
+    pub precision: Vec<u16>,
 
     /// Statistics to calculate.
     ///
@@ -151,12 +151,12 @@ impl Stat {
         let statistics = match (&self.precision[..], &self.statistics[..]) {
             (&[precision], statistics) => statistics
                 .iter()
-                .map(|&s| StatisticWithOptions::new(s, precision))
+                .map(|&s| StatisticWithOptions::new(s, usize::from(precision)))
                 .collect::<Vec<_>>(),
             (precisions, statistics) if precisions.len() == statistics.len() => statistics
                 .iter()
                 .zip(precisions.iter())
-                .map(|(&s, &p)| StatisticWithOptions::new(s, p))
+                .map(|(&s, &p)| StatisticWithOptions::new(s, usize::from(p)))
                 .collect::<Vec<_>>(),
             (precisions, statistics) => {
                 return Err(Stat::command()
